@@ -373,7 +373,18 @@ def check_broken_syntax(ctx):
                     continue
                 unparsed = [e for e in exs if getattr(e, '_parts', None) is None]
                 bad_block = [e for e in exs if 'good = 1' not in e.docsrc]
-                if not wl or unparsed or bad_block:
+                good_kept = [e for e in exs if 'good = 1' in e.docsrc]
+                if wl and good_kept and not unparsed and not bad_block:
+                    # finding F52 by mechanism: google blocks are handed out one by one, the blocks in front of the broken
+                    # one have left the generator before the error is met: the docstring is collected in part
+                    ctx.violation('broken-partially-collected', 'a docstring whose second google block has broken doctest syntax '
+                                  '(%s) yields the doctest of its first block (and a warning) under style=%s; the property asks '
+                                  'for no example for that docstring\n--- docstring ---\n%s' % (name, style, doc), case,
+                                  blocks_before_the_broken_one=True)
+                    ctx.cell('broken-syntax:' + name)
+                    ctx.cell('broken-syntax-layout:' + layout)
+                    continue
+                if not wl or unparsed or bad_block or good_kept:
                     ctx.violation('broken-accepted', 'a docstring with broken doctest syntax (%s, layout %s) yields %d example(s) '
                                   '(%d for the broken block, %d of them not parsed) and %d warning(s) under style=%s; expected a '
                                   'warning and no example for it\n--- docstring ---\n%s' % (
@@ -412,6 +423,8 @@ def replay(case, ctx):
 
 
 def classify(v):
+    if v.get('mechanism') == 'broken-partially-collected' and v.get('blocks_before_the_broken_one'):
+        return 'google-blocks-before-a-broken-one-collected'
     return None
 
 
